@@ -370,6 +370,24 @@ class Body:
         full = [x for x in ds if x[2] in ("assign", "call")]
         if len(full) == 1 and len(ds) == 1:
             return full[0]
+        if len(full) > 1 and len(full) == len(ds):
+            # jump threading (inline.threaded) duplicates straight-line blocks: textually identical definitions in
+            # clones of one original block are one definition
+            def sig(d):
+                if d[2] == "assign":
+                    return ("a", json.dumps(d[3], sort_keys=True))
+                t = d[3]
+                return ("c", t.get("fn"), json.dumps(t.get("args"), sort_keys=True), json.dumps(t.get("dest"), sort_keys=True))
+            def orig(bi):
+                for _ in range(20):
+                    nb = self.blocks[bi].get("thr")
+                    if nb is None:
+                        return bi
+                    bi = nb
+                return bi
+            origin = {orig(d[0]) for d in full}
+            if len({sig(d) for d in full}) == 1 and len(origin) == 1:
+                return min(full, key=lambda d: d[0])
         return None
 
     def calls(self):
